@@ -48,6 +48,8 @@ def cases(draw, tier):
         else:
             bulk = "matrix"
             unit = draw(st.sampled_from([1.0, 1.0, 1.0, 1e-3, 1e-6, 1e3]))
+            if isinstance(sc, dict) and sc["cls"].startswith("SecondMoment") and draw(st.integers(0, 2)) == 0:
+                unit = "level_9e9"  # readings of a 9.19 GHz standard: a huge level, which this user score depends on
     mdi = draw(st.integers(1, int(max(1, bw / 2 - 1))))
     scale = draw(st.sampled_from([0.3, 1.0, 0.0, 2.0, None]))
     if isinstance(sc, dict) and sc["cls"] in ("TableChangeScore", "FunctionChangeScore") and scale is not None:
@@ -62,7 +64,9 @@ def cases(draw, tier):
         sc["table"] = np.asarray(flat).reshape(n + 1, n + 1, n + 1).tolist()
     elif bulk == "matrix":
         X, _ = draw(D.structured_matrix(n, p, boundary_positions=(bw, n - bw)))
-        if unit != 1.0:
+        if unit == "level_9e9":
+            X = [[v + 9.19e9 for v in row] for row in X]
+        elif unit != 1.0:
             X = [[v * unit for v in row] for row in X]
     integral = all(float(v).is_integer() for row in X for v in row)
     return {"params": {"change_score": sc, "bandwidth": bw, "threshold_scale": scale, "level": level,
